@@ -267,7 +267,7 @@ BOUNDS = {"quick": {"agents per query": "<= 2 fully symbolic (+1 at a concrete p
           "thorough": {"agents per query": "<= 2 fully symbolic (+1)", "axes": "x, xy, xyz"}}
 OUTSIDE = ["rounding of q +/- leeway on doubles at the faces of the box (the Float64 monotonicity lemma did not finish in 300 s; DESIGN.md section 6)",
            "more than 3 agents per query (the filter is per agent)"]
-STUBS = ["real GridWorld built once concretely", "Model.logger replaced by a no-op logger"]
+STUBS = ["real GridWorld and LineWorld built once concretely", "Model.logger replaced by a no-op logger"]
 ASSUMPTIONS = ["agents are written directly at arbitrary integer positions of a zero-extent continuous world (every point is legal there)"]
 
 
